@@ -335,12 +335,32 @@ fn eq<const D: usize>(da: &[u8], db: &[u8], differ_at: Option<u16>) -> CaseResul
     vensure!(catch(|| z[li]).ok() == y.iter().last().cloned(), "clone_from", "after clone_from the last valid index of the source shape {:?} does not address its last element", b);
     let c2 = y.clone();
     vensure!(c2 == y && c2.dims() == y.dims(), "clone", "clone() differs from the original for dims {:?}", b);
+    if differ_at.is_none() {
+        // the same through other element types: zero-sized, heap-owning, nested
+        eq_typed::<(), D>("()", a, b, |_| ())?;
+        eq_typed::<String, D>("String", a, b, |i| format!("e{}", i))?;
+        eq_typed::<Vec<u8>, D>("Vec<u8>", a, b, |i| vec![i as u8; i % 3])?;
+        eq_typed::<(u8, bool), D>("(u8, bool)", a, b, |i| (i as u8, i % 2 == 0))?;
+    }
     let mut st = CaseStats::default();
     st.nontrivial = a != b;
     if a != b {
         st.label("same-data-different-shape");
     }
     Ok(st)
+}
+
+fn eq_typed<T: Clone + PartialEq + std::fmt::Debug, const D: usize>(ty: &str, a: [usize; D], b: [usize; D], mk: impl Fn(usize) -> T) -> Result<(), Violation> {
+    let len: usize = a.iter().product();
+    let data: Vec<T> = (0..len).map(&mk).collect();
+    let (x, y) = (Tensor::<T, D>::from_vec(a, data.clone()), Tensor::<T, D>::from_slice(b, &data));
+    vensure!((x == y) == (a == b) && (y == x) == (a == b), if a != b { "eq-ignores-shape" } else { "eq" }, "Tensor<{}> with dims {:?} and {:?} and identical data compare {}, expected {}", ty, a, b, x == y, a == b);
+    vensure!(x == x.clone(), "eq", "Tensor<{}> with dims {:?} is not equal to its clone", ty, a);
+    let mut z = x.clone();
+    z.clone_from(&y);
+    vensure!(z == y && z.dims() == y.dims(), "clone_from", "Tensor<{}>: after a.clone_from(&b) with dims {:?} <- {:?}: a has dims {:?} and a == b is {}", ty, a, b, z.dims(), z == y);
+    vensure!(x.iter().count() == len && y.iter().cloned().collect::<Vec<T>>() == data, "iter", "Tensor<{}> with dims {:?}: iteration does not return the construction data", ty, b);
+    Ok(())
 }
 
 macro_rules! by_rank {
@@ -399,7 +419,7 @@ fn main() {
          flattened offset is still inside the storage, and huge values 2^32, 2^62, 2^63, MAX, ~MAX/stride whose product with the stride wraps in builds without overflow checks) must panic for Index and IndexMut (observed with catch_unwind); wrong data \
          lengths and zero extents must panic in from_vec, from_slice, new and read; writing then Tensor::read(dims) gives an equal tensor \
          and the written tokens are the elements in iter() order. Equality: all pairs of shapes of equal rank and element count with \
-         identical data must compare unequal unless the dims are equal; equal dims with one differing element compare unequal. \
+         identical data must compare unequal unless the dims are equal (element types i64, (), String, Vec<u8>, (u8, bool)); equal dims with one differing element compare unequal. \
          22 shapes with large extents (255..65537 in one dimension) are checked on 1500 sampled indices each. Generated i64 (full range) and String element values for the IO round trip. Non-trivial = rank >= 2 (the invalid dimension is \
          then not always the last one) / shapes that differ. Distinct = distinct (sub-check, case).",
     );
